@@ -564,7 +564,7 @@ theorem relF_handleLogon' (s : Sess) (m : InMsg) (h : LogonHyp N S s m)
       | none =>
         simp only []
         generalize hs3 : (if ((if s2.cfg.initiator = true then false else s2.cfg.resetOnLogon) || logonResetFlag m && !s2.sentReset) = true
-            then s2.storeReset else s2) = s3
+            then dropAndReset s2 else s2) = s3
         have hflag : ResetOK N S ∨ logonResetFlag m = false := h.ro
         have h3 : RelF N S s s3 := by
           rw [← hs3]
@@ -930,7 +930,7 @@ theorem good_connect {P : InMsg → Prop} (s : Sess) (hc : CfgHyp N S s.cfg) (h 
         refine Good.setSt ?_ _ (stashOK_plain _ rfl)
         generalize hs1 : (if s.openConn.cfg.refreshOnLogon = true then s.openConn.emit Obs.refresh else s.openConn) = s1
         have h1 : RelF N S s.openConn s1 := by rw [← hs1]; rel_peel
-        generalize hs2 : (if s1.cfg.resetOnLogon = true then s1.storeReset else s1) = s2
+        generalize hs2 : (if s1.cfg.resetOnLogon = true then dropAndReset s1 else s1) = s2
         have h2 : RelF N S s.openConn s2 := by
           rw [← hs2]; split
           · rename_i hr
